@@ -43,12 +43,29 @@ def worker(args):
     from pyvc.verify import verify_fuc
     from pyvc import replay as rp
     t0 = time.time()
-    res = verify_fuc(key, dict(cfg))
+    con = REG.contracts[key]
+    bcfg = dict(cfg)
+    if con.bounded:
+        # bounded stand-in (never counted as proved): every list/dict has at most K elements, loops unrolled K times
+        bcfg.update({"ground": con.bounded, "unroll": con.bounded, "timeout_ms": max(cfg.get("timeout_ms", 15000), 20000), "both": False})
+    res = verify_fuc(key, bcfg)
+    if con.bounded:
+        for o in res.obligations:
+            o["bounded"] = con.bounded
     out = {"key": key, "file": res.file, "qualname": res.qualname, "sha256": res.sha, "lines": list(res.lines),
            "paths": res.paths, "error": res.error, "obligations": res.obligations, "log": res.log, "refutations": [],
            "secs": 0.0}
+    out["bounded"] = con.bounded
     bad = [o for o in res.obligations if o["status"] != "discharged" and not o.get("known")]
-    if bad and res.error is None:
+    if con.bounded and res.error is None:
+        # replay the bounded counter-models directly
+        seen: Dict[str, int] = {}
+        for o in res.obligations:
+            if o["status"] == "failed" and o["model"] and seen.get(o["name"], 0) < 3:
+                seen[o["name"]] = seen.get(o["name"], 0) + 1
+                out["refutations"].append({"bound": con.bounded, "obligation": o["name"], "kind": o["kind"], "label": o["label"],
+                                           "path": o["path"], "model": o["model"], "replay": rp.replay(key, o["model"], o)})
+    elif bad and res.error is None:
         # refutation pass: bounded unrolling + grounded quantifiers, only to search real failing inputs; its models are
         # candidates that count only when the native replay reproduces them
         done = set()
@@ -119,6 +136,7 @@ def report(prop, tier, seed, results, known, assumed, t0, verbose):
     n_obl = n_dis = 0
     violations, undecided, errors, known_lines = [], [], [], []
     fucs = []
+    bounded: Dict[str, dict] = {}
     samples = []
     trusted = set()
     solver_secs = 0.0
@@ -129,6 +147,14 @@ def report(prop, tier, seed, results, known, assumed, t0, verbose):
         for o in r["obligations"]:
             solver_secs += o["secs"]
             if o.get("known"):
+                continue
+            if o.get("bounded"):
+                b = bounded.setdefault(r["qualname"], {"function": r["qualname"], "file": r["file"], "bound": o["bounded"],
+                                                       "checked": 0, "held": 0, "undecided": 0,
+                                                       "rule": "every list/dict/set has at most `bound` elements, loops unrolled `bound` times, quantifiers expanded"})
+                b["checked"] += 1
+                b["held"] += o["status"] == "discharged"
+                b["undecided"] += o["status"] == "unknown"
                 continue
             n_obl += 1
             d = by_name.setdefault(o["name"], {})
@@ -156,6 +182,8 @@ def report(prop, tier, seed, results, known, assumed, t0, verbose):
         failing = {}
         for o in r["obligations"]:
             if o["status"] != "discharged" and not o.get("known"):
+                if o.get("bounded") and o["status"] == "unknown":
+                    continue  # a bounded stand-in that the solver could not decide: reported in evidence, claims nothing
                 failing.setdefault(o["name"], []).append(o)
         if not failing:
             continue
@@ -207,6 +235,7 @@ def report(prop, tier, seed, results, known, assumed, t0, verbose):
                                                "A1 ints mathematical; A2 floats are reals; strings opaque; A7 pydantic models are plain records and field annotations hold"],
             "functions_under_contract": fucs,
             "assumed_contracts": assumed,
+            "bounded": list(bounded.values()),
             "back_ends": backends, "solver_secs": round(solver_secs, 2),
             "samples": samples,
             "undecided": [u[0] for u in undecided], "checker_errors": [e[0] for e in errors],
